@@ -60,9 +60,13 @@ func (p c20Prog) nvars() int {
 // c20Big: n KiB of numbered lines, different per stream
 func c20Big(kib int, stream string) string {
 	var sb strings.Builder
+	// output is bytes, not lines of text: carriage returns with and without a line feed, a tab, trailing
+	// blanks, an escape sequence, an empty line, text past ASCII - "exact" means all of them arrive
+	sb.WriteString(stream + " crlf line\r\nlone cr\rsame line\n\ttab and trailing blanks  \n\n\x1b[31mred\x1b[0m\né ü 語\n")
 	for i := 0; sb.Len() < kib*1024; i++ {
 		fmt.Fprintf(&sb, "%s %07d the quick brown fox jumps over the lazy dog\n", stream, i)
 	}
+	sb.WriteString("last line without a line feed, then a carriage return\r")
 	return sb.String()
 }
 
